@@ -30,8 +30,13 @@ func c06(w *World) {
 		return errors.New("bad credentials")
 	}
 	user, pass := "", ""
-	if w.W.Chance(1, 2) {
+	switch w.W.Draw(4) {
+	case 1:
 		user, pass = "bob", "hunter2"
+	case 2:
+		user = "bob-only" // a user name without a password
+	case 3:
+		pass = "api-token-1234" // token-style: a password without a user name
 	}
 	w.Cfg("role", role)
 	w.Cfg("limits", limits)
@@ -67,7 +72,7 @@ func c06(w *World) {
 		if v, _ := Get(lg, TagEncrypt); v != fixgen.EnumEncryptMethodNoneother {
 			w.Violate("initiator-logon-fields", "98", fmt.Sprintf("Logon carries 98=%q, configured %q", v, fixgen.EnumEncryptMethodNoneother))
 		}
-		if user != "" {
+		if user != "" || pass != "" {
 			u, _ := Get(lg, TagUsername)
 			p, _ := Get(lg, TagPassword)
 			if u != user || p != pass {
